@@ -27,9 +27,11 @@ Import ListNotations.
                         by the harness in order of first appearance)
      res_out, brk_out   resume point returned / break stored for the next page
      fn_in, fn_out      len(context.reportedFootnotes) before / after the page
-     broken             broken out-of-flow boxes handed to the next page *)
+     broken             broken out-of-flow boxes handed to the next page
+     un_in, un_out      footnotes not placed on any page yet (waiting list + reported)
+                        before / after the page *)
 Inductive pstep :=
-| PStep (blank rgt : bool) (brk_in res_in res_out brk_out fn_in fn_out broken : N).
+| PStep (blank rgt : bool) (brk_in res_in res_out brk_out fn_in fn_out broken un_in un_out : N).
 
 Inductive case :=
 | CRun (outcome : N) (rounds : N) (top : list topnode) (root_idx : Z) (root_kind : N)
@@ -50,9 +52,12 @@ Definition page_eqb (a b : page) : bool :=
    read, the blank-page decision, the resume point and break handed to the next
    page, the exit test of makeAllPages.  On the recorded pages the hypotheses of
    C01_page_loop_terminates are checked as well:
-     8   a blank page (no content: only the loop over the reported footnotes can
-         report) reports more footnotes than it received, or does not place the first
-         one it received (H_fn_blank / report_loop_first_placed)
+     8   a blank page (no content: only the loop over the reported footnotes places
+         or reports footnotes) that received no footnote reports one, or one that
+         received some did not place any: the number of footnotes not placed yet
+         (waiting list + reported) must strictly decrease (H_fn_blank /
+         report_loop_first_placed; counted on the unplaced footnotes because placing a
+         footnote that itself contains footnote calls adds those to the reported list)
      9   a page with content returned a resume point seen before: no measure can
          decrease (H_progress)
      7   the bookkeeping of remakePage / makeAllPages differs from the model *)
@@ -60,7 +65,7 @@ Fixpoint replay (steps : list pstep) (F : nat) (truncated : bool)
          (i : nat) (pm : list (item N)) (fn : nat) (maxid : N) : N :=
   match steps with
   | [] => if truncated then 0%N else 7%N
-  | PStep blank rgt brk_in res_in res_out brk_out fn_in fn_out broken :: rest =>
+  | PStep blank rgt brk_in res_in res_out brk_out fn_in fn_out broken un_in un_out :: rest =>
       let lc := fun (_ : option N) (_ : nat) =>
                   ((res_of res_out, brk_of brk_out, N.to_nat fn_out), (false, false)) in
       let lb := fun (_ : nat) => (N.to_nat fn_out, (false, false)) in
@@ -73,7 +78,8 @@ Fixpoint replay (steps : list pstep) (F : nat) (truncated : bool)
           else if negb (match nth_error pm' (S i) with
                         | Some nx => brk_eqb (i_brk nx) (brk_of brk_out)
                         | None => false end) then 7%N
-          else if (blank && (negb (Nat.leb fn' fn) || negb (Nat.eqb fn 0) && negb (Nat.ltb fn' fn)))%bool then 8%N
+          else if (blank && (if Nat.eqb fn 0 then negb (Nat.eqb fn' 0)
+                             else negb (N.ltb un_out un_in) || negb (N.leb fn_out un_out)))%bool then 8%N
           else if (negb blank && is_some ra && negb (N.ltb maxid res_out))%bool then 9%N
           else if (is_none ra && Nat.eqb fn' 0)%bool then
             match rest with [] => if truncated then 7%N else 0%N | _ => 7%N end
@@ -98,7 +104,7 @@ Definition model_out (c : case) : N * N * Z * N :=
       (* the verdict of the replay (0 = the recorded round is a run of the model on
          which the hypotheses hold); the other components are not used *)
       (match steps with
-       | PStep _ rgt brk_in _ _ _ _ _ _ :: _ =>
+       | PStep _ rgt brk_in _ _ _ _ _ _ _ _ :: _ =>
            replay steps (N.to_nat F) truncated 0 (initial_page_maker N (brk_of brk_in) rgt) 0 0%N
        | [] => 7%N
        end, 0%N, 0%Z, 0%N)
